@@ -44,7 +44,10 @@ def units(tier, seed=0):
                 if tier == 'quick':
                     opts['reg_values'] = 'distinct'
                     opts['it'] = 'none'
-                us.append(UnitSpec(uname + '/operands', 'vf.step', 'mk_step', opts, max_seconds=1800, weight=3))
+                from vf import c03
+                for suf, o2 in c03.split_window(label, opts):
+                    us.append(UnitSpec(uname + '/operands' + suf, 'vf.step', 'mk_step', o2, max_seconds=1800, weight=3,
+                                       allow_vacuous=bool(suf)))
     return us
 
 
